@@ -83,9 +83,22 @@ func Gen(t *rapid.T) Plan {
 			p.Max = p.Init
 			p.CfgStyle = rapid.IntRange(1, 2).Draw(t, "cfgstyle")
 		}
+
+		// larger buffers with a tiny or zero gap (a gap of 0 is a legal setting, not "unset")
+		if rapid.IntRange(0, 5).Draw(t, "biggap0") == 0 {
+			p.Init = rapid.SampledFrom([]int{20, 24, 40}).Draw(t, "biginit")
+			p.Max = p.Init * rapid.IntRange(1, 2).Draw(t, "bigmaxmul")
+			p.Gap = rapid.IntRange(0, 2).Draw(t, "biggap")
+			p.CfgStyle = 0
+		}
 	}
 
-	p.Phase1 = genWOps(t, "phase1", 0, 50)
+	if p.Init >= 20 && p.Init < 100 {
+		// long enough to fill (and, when it cannot grow, wrap) the larger buffers
+		p.Phase1 = genWOps(t, "phase1", 3*p.Init, 6*p.Init)
+	} else {
+		p.Phase1 = genWOps(t, "phase1", 0, 50)
+	}
 	p.Phase2 = genWOps(t, "phase2", 0, 30)
 	p.Tails = rapid.SliceOfN(rapid.IntRange(1, p.Max+3), 1, 4).Draw(t, "tails")
 	p.Random = rapid.SliceOfN(rapid.SliceOfN(rapid.Byte(), 0, 24), 0, 3).Draw(t, "random")
